@@ -228,7 +228,9 @@ InZone(v, zone) ==
   LET i == Instant(v)
       off == OffsetAtInstant(zone, i.day, i.sod)
   IN IF off = OPQ THEN [ok |-> FALSE]
-     ELSE LET p == Shift(i.day, i.sod, off) IN [ok |-> TRUE, day |-> p.day, sod |-> p.sod, off |-> off]
+     ELSE LET p == Shift(i.day, i.sod, off)
+          IN IF p.day < 0 \/ p.day >= DaysBeforeYear(10000) THEN [ok |-> FALSE]     \* leaves the years 1..9999: not decided
+             ELSE [ok |-> TRUE, day |-> p.day, sod |-> p.sod, off |-> off]
 
 Cast(v, to, useTZ, zone) ==
   LET need(r) == IF useTZ THEN r ELSE CErr("hard")
